@@ -67,6 +67,12 @@ CHECKS = {
     "C17": dict(cat="translation_validation", tech="Lean 4: drawing specification specDrawing/drawingOK with soundness theorem, evaluated on the drawing parsed from the real DOT source of every stage output",
                 text="The real SCFGRenderer / ByteFlowRenderer output for every stage of every generated closed CFG (and bytecode graphs) is parsed and judged by Scfg.Spec.drawingOK: nodes, nested clusters and solid/dashed edges with header-resolved destinations must equal, as multisets, what specDrawing prescribes (Scfg.C17.drawingOK_sound, spec_nodes, spec_clusters); labels are checked for each required field.", ref="§7 C17",
                 note="Trusted: Lean kernel + standard axioms; exporter; the graphviz package's DOT printer; harness/dot.py. No Lean model of the renderer's control flow: the quantifier over graphs is by enumeration."),
+    "C08": dict(cat="translation_validation", tech="Lean 4: reference semantics of the Python subset by compilation to micro-code (validated path-exhaustively against CPython) + verified simulation checker (pySim_sound) between the function and the real front end's CFG; CPython runs of both; census",
+                text="Scfg/Py/Micro.lean gives the supported subset (incl. and/or, comparison chains, call arguments, for/while/else, break/continue/return) a reference semantics whose abstract values are reaching definitions, so the state space is finite and Scfg.C08.pySim_sound turns one successful certificate check into equal event traces for ALL decision sequences. "
+                     "For every generated function the real front end's CFG is abstracted and compared with the function this way; both are also executed natively by CPython (the CFG through a block-by-block interpreter) on every decision sequence up to depth 7, which also validates the Lean semantics; pruning is censused by statement identity. "
+                     "Failing programs are classified semantically by variant semantics reproducing the known deviations (eager and/or hoisting, for-target preset).", ref="§7 C08",
+                note="Trusted: Lean kernel + standard axioms; harness/pysem.py (abstraction of ast); the reaching-definition abstraction and the truthiness-memo policy (identical in the CPython oracle); atoms do not raise. "
+                     "When the product exceeds 200 000 pairs the Lean verdict is 'inconclusive' and the bounded CPython comparison decides (counted in evidence)."),
 }
 
 NOT_YET = {}
